@@ -187,7 +187,9 @@ class NativeCheck:
                     return "pre-false", None     # the body under test never runs for such a receiver
             except Exception:
                 return "pre-false", None
-        old = SimpleNamespace(**copy.deepcopy(args))
+        memo = {}
+        old = SimpleNamespace(**copy.deepcopy(args, memo))
+        old._memo = memo
         call_args = dict(args)
         try:
             res = self.fn(**call_args)
